@@ -162,6 +162,35 @@ func ruleWaitSignal() check.Rule {
 			} else {
 				c.Violation(key+"/capacity", fd.Pos(), "the signalling channel is unbuffered: the finalizer that signals Wait blocks Unsubscribe until Wait receives")
 			}
+			// the receive that blocks comes before any close of the channel (a receive from a closed channel returns at once)
+			var recvPos, closePos token.Pos
+			ast.Inspect(fd.Body, func(n ast.Node) bool {
+				switch x := n.(type) {
+				case *ast.FuncLit:
+					return false
+				case *ast.UnaryExpr:
+					if x.Op == token.ARROW {
+						if id, _ := rootIdent(x.X); id != nil && objOf(info, id) == ch && recvPos == token.NoPos {
+							recvPos = x.Pos()
+						}
+					}
+				case *ast.CallExpr:
+					if id, ok := ast.Unparen(x.Fun).(*ast.Ident); ok && id.Name == "close" && len(x.Args) == 1 {
+						if rid, _ := rootIdent(x.Args[0]); rid != nil && objOf(info, rid) == ch && closePos == token.NoPos {
+							closePos = x.Pos()
+						}
+					}
+				}
+				return true
+			})
+			switch {
+			case recvPos == token.NoPos:
+				c.Violation(key+"/blocks", fd.Pos(), "Wait never receives from its signalling channel: it returns without waiting")
+			case closePos != token.NoPos && closePos < recvPos:
+				c.Violation(key+"/blocks", fd.Pos(), "Wait closes its signalling channel before receiving from it: the receive returns at once and Wait does not wait")
+			default:
+				c.OK(key+"/blocks", fd.Pos(), "Wait blocks on a receive from its signalling channel")
+			}
 			// sends: all inside a literal passed to recv.Add
 			sends, sendsInAdd := 0, 0
 			var addCall *ast.CallExpr
